@@ -30,6 +30,16 @@ namespace pika::verif {
         if (s != nullptr) s(phase, site, obj, a, b);
     }
 
+    // payload of the placement hooks (place.create / place.sched): chosen queue index, incoming
+    // hint (mode, value), priority, flags (bit0 allow_fallback, bit1 other end, bit2 run_now)
+    inline std::uint64_t place_pack(std::uint64_t idx, int mode, std::int16_t hint, int prio,
+        unsigned flags) noexcept
+    {
+        return (idx & 0xffffu) | (static_cast<std::uint64_t>(mode & 3) << 16) |
+            (static_cast<std::uint64_t>(static_cast<std::uint16_t>(hint)) << 18) |
+            (static_cast<std::uint64_t>(prio & 15) << 34) | (static_cast<std::uint64_t>(flags & 7) << 38);
+    }
+
     // RAII pair: PRE at construction, POST at scope exit; `f` is evaluated at both ends and the
     // two values are the payload (used for compare-exchange sites: before/after words)
     template <typename F>
